@@ -382,10 +382,12 @@ Lemma prev_parts_nonspec F rec ps cpn base prev :
   snd (fst (prev_parts rec ps cpn (prev1_of F base prev))) = [] /\
   snd (prev_parts rec ps cpn (prev1_of F base prev)) = [].
 Proof.
-  intro Hp. assert (E : prev1_of F base prev = if cls_abstract F base then None
-                                               else Some (VSpec (path_of F base) [] [])).
-  { destruct prev as [[]|]; simpl in *; try reflexivity. destruct Hp. }
-  rewrite E. destruct (cls_abstract F base); simpl; [split; reflexivity|].
+  intro Hp.
+  assert (E : prev1_of F base prev = None \/
+              prev1_of F base prev = (if cls_abstract F base then None else Some (VSpec (path_of F base) [] []))).
+  { destruct prev as [[]|]; simpl in *; try (right; reflexivity); try (left; reflexivity). destruct Hp. }
+  destruct E as [E|E]; rewrite E; [split; reflexivity|].
+  destruct (cls_abstract F base); simpl; [split; reflexivity|].
   destruct (str_eqb (path_of F base) cpn); simpl; split; reflexivity.
 Qed.
 
